@@ -66,9 +66,52 @@ def run_suite(pid, suite, tier, seed, binary):
             dict(suite=suite["name"], harness_suite=suite["harness"], seed=seed, count=count, case=idx, keep=None, panic_at_step=step,
                  panic_message=msg, trace_before_panic=term[:20000], extra=suite.get("extra", {})),
             failing_input=True))
-    for idx, n, term in bad[:3]:
-        findings.append(investigate(pid, suite, seed, count, binary, idx, n, term, codes[idx] // 4 - 1))
+    inv = [investigate(pid, suite, seed, count, binary, idx, n, term, codes[idx] // 4 - 1) for idx, n, term in bad[:3]]
+    if bad and suite.get("monitor") and not suite.get("classify") and not any(f.failing_input for f in inv):
+        # the correspondence broke but the property holds on the disagreeing traces looked at so
+        # far: search for a concrete input on which the PROPERTY fails - the monitor over every
+        # disagreeing case, then over fresh cases of the same generator (other seeds)
+        hit = search_failing_input(pid, suite, seed, count, binary, bad)
+        if hit:
+            inv = [hit] + inv[:1]
+    findings.extend(inv)
     return cov, findings
+
+
+def search_failing_input(pid, suite, seed, count, binary, bad):
+    mon = suite["monitor"]
+    tag = "%s_%s_search" % (pid, suite["name"])
+
+    def first_failure(cases, s, c):
+        try:
+            codes = core.eval_cases(tag, suite["imports"], mon, suite["case_type"], cases)
+        except core.CoqEvalError:
+            return None
+        for idx, n, term in cases:
+            if codes.get(idx, 0) // 4 != 0:
+                step = codes[idx] // 4 - 1
+                return Finding("monitor", "correspondence %s (%s) no longer checks; property monitor %s fails on the implementation's trace of case %d, seed %d (step %d)" % (
+                                   suite["name"], suite["check"], mon, idx, s, step),
+                               dict(property=pid, suite=suite["name"], harness_suite=suite["harness"], seed=s, count=c, case=idx, keep=None,
+                                    monitor=mon, monitor_failed_at_step=step, minimized_case=term[:20000], extra=suite.get("extra", {})),
+                               failing_input=True)
+        return None
+
+    hit = first_failure(bad, seed, count)
+    if hit:
+        return hit
+    extra_n = suite.get("search_count", 0)
+    for round_ in range(suite.get("search_rounds", 3) if extra_n else 0):
+        s2 = seed + 7919 * (round_ + 1)
+        log("correspondence %s broke without a failing input so far; searching %d fresh cases (seed %d)" % (suite["name"], extra_n, s2))
+        try:
+            cases, _ = core.run_harness(binary, suite["harness"], s2, extra_n, extra=suite.get("extra"))
+        except core.HarnessCrash:
+            continue
+        hit = first_failure(cases, s2, extra_n)
+        if hit:
+            return hit
+    return None
 
 
 def investigate(pid, suite, seed, count, binary, idx, nops, term, pos):
